@@ -9,10 +9,30 @@
  *   marker plant, dictionary prefix length, BP128 block reference), 4 x u32
  *   random-access indices, 3 x (u32,u32) block windows (FOR).
  *
+ *   directly after the array descriptor: 5 placement bytes (see placement()):
+ *   where every buffer of the case lies relative to a 16-byte boundary.
+ *
  * oracle: the input array.  The encoded bytes are copied into an exact-size
  * buffer of `written` bytes before any reader sees them; outputs are exact-size
  * buffers of `count` elements; every full decoder, random-access reader and
- * block reader is compared with the input; reported counts equal count. */
+ * block reader is compared with the input; reported counts equal count.
+ *
+ * buffer placement is a generated dimension of every case: the property
+ * quantifies over all arrays and readers, and where the caller keeps them is
+ * part of "every input" (a decoder may not assume a 16-byte aligned
+ * destination or source).  Every buffer handed to the library is
+ *   [pad | payload] inside one vf_exact_alloc(pad + payload) allocation,
+ * so the payload still ends at the ASan redzone / canary, while its start is
+ * pad bytes after the (16-byte aligned) start of the allocation:
+ *   outputs (uint64_t / uint32_t)  pad = 0..3 elements, a new offset for every
+ *                                  output buffer of the case
+ *   exact copy of the encoded bytes pad = 0..15 bytes
+ *   encoder source arrays           pad = 0..3 elements
+ *   encoder destination             pad = 0..15 bytes (slack at the end)
+ * The pad is filled with a pattern and checked together with the canary.
+ * Block readers additionally decode into `full + start` of one full-size
+ * output array (generated windows, and a streaming pass in chunks of a
+ * generated size), with the untouched neighbourhood checked. */
 #include "vf.h"
 #include "vf_arr.h"
 
@@ -44,6 +64,9 @@ static const char *const kname[K_COUNT] = {"delta", "for",  "pfor",  "group",
                                            "dict",  "rle",  "elias", "bp128"};
 
 #define MAXIDX 96
+#define NPB 16
+#define BP_MAXBLK 4
+#define PADFILL 0x5C
 
 typedef struct ctx {
     vf_report *rep;
@@ -60,6 +83,20 @@ typedef struct ctx {
     size_t idx[MAXIDX];
     size_t nidx;
     char vname[64];
+    /* buffer placement (generated, see placement()) */
+    unsigned in_off;  /* exact copy of the encoded bytes: 0..15 bytes */
+    unsigned src_off; /* encoder source arrays: 0..3 elements */
+    unsigned dst_off; /* encoder destination: 0..15 bytes */
+    unsigned chunk;   /* streaming block size; 0 = one block of count */
+    uint32_t outw;    /* eight 2-bit element offsets, one per output buffer */
+    unsigned outk;
+    uint64_t fixedplace; /* sweep: placement word instead of case bytes */
+    struct {
+        void *user;
+        uint8_t *base;
+        size_t pad;
+    } pb[NPB];
+    unsigned npb;
 } ctx;
 
 #define FAIL(site, kind, ...) vf_fail(c->rep, site, kind, __VA_ARGS__)
@@ -76,10 +113,15 @@ typedef struct ctx {
 
 #define CHECK_CANARY(site, p, nelem)                                           \
     do {                                                                       \
-        if (vf_exact_check(p)) {                                               \
+        size_t cc_ = pcheck(c, p);                                             \
+        if (cc_) {                                                             \
             FAIL(site, "canary",                                               \
-                 "%s %s: output buffer of %llu elements was overrun [%s]",     \
+                 "%s %s: output buffer of %llu elements (placed %u bytes "     \
+                 "into its allocation) was %s [%s]",                           \
                  kname[c->codec], c->vname, (unsigned long long)(nelem),       \
+                 (unsigned)ppad(c, p),                                         \
+                 cc_ == (size_t)-1 ? "underrun (bytes before it changed)"      \
+                                   : "overrun",                                \
                  c->a.desc);                                                   \
             goto done;                                                         \
         }                                                                      \
@@ -103,25 +145,181 @@ static void *xmalloc(size_t n) {
     return p;
 }
 
-/* exact-size copy of what the encoder reported writing */
-static uint8_t *enc_copy(const uint8_t *dst, size_t written) {
-    uint8_t *p = (uint8_t *)vf_exact_alloc(written);
+/* ------------------------------------------------------- buffer placement */
+/* Five bytes directly after the array descriptor (exhausted input: every
+ * offset 0, one streaming block - the placement every earlier case had):
+ *   b0  bits 0..3 byte offset of the encoded copy, bits 4..5 element offset
+ *       of the encoder source
+ *   b1,b2  eight 2-bit element offsets, consumed by the output buffers of the
+ *       case in allocation order
+ *   b3  streaming block size for the block readers (0 = the whole array)
+ *   b4  bits 0..3 byte offset of the encoder destination
+ * In the deterministic sweep the same fields come from a counter hash. */
+static void placement(ctx *c) {
+    uint64_t w;
+    if (c->fixed) {
+        w = c->fixedplace;
+    } else {
+        w = vf_u8(c->r);
+        w |= (uint64_t)vf_u16(c->r) << 8;
+        w |= (uint64_t)vf_u8(c->r) << 24;
+        w |= (uint64_t)vf_u8(c->r) << 32;
+    }
+    c->in_off = (unsigned)(w & 15);
+    c->src_off = (unsigned)((w >> 4) & 3);
+    c->outw = (uint32_t)((w >> 8) & 0xffff);
+    c->chunk = (unsigned)((w >> 24) & 0xff);
+    c->dst_off = (unsigned)((w >> 32) & 15);
+    c->outk = 0;
+    vf_class(w ? "place.generated" : "place.allZero");
+}
+
+/* [pad | payload] in one exact allocation: the payload ends at the redzone /
+ * canary, the pad is pattern-filled and checked by pcheck() */
+static void *palloc(ctx *c, size_t payload, size_t pad) {
+    uint8_t *b = (uint8_t *)vf_exact_alloc(pad + payload);
+    memset(b, PADFILL, pad);
+    if (c->npb >= NPB) {
+        abort();
+    }
+    c->pb[c->npb].user = b + pad;
+    c->pb[c->npb].base = b;
+    c->pb[c->npb].pad = pad;
+    c->npb++;
+    return b + pad;
+}
+static int pfind(const ctx *c, const void *user) {
+    for (unsigned i = 0; i < c->npb; i++) {
+        if (c->pb[i].user == user) {
+            return (int)i;
+        }
+    }
+    abort();
+}
+static size_t ppad(const ctx *c, const void *user) {
+    return c->pb[pfind(c, user)].pad;
+}
+/* 0 intact; (size_t)-1 the pad before the payload changed; otherwise the
+ * offset + 1 of the first damaged canary byte */
+static size_t pcheck(const ctx *c, const void *user) {
+    int i = pfind(c, user);
+    size_t r = vf_exact_check(c->pb[i].base);
+    if (r) {
+        return r;
+    }
+    for (size_t k = 0; k < c->pb[i].pad; k++) {
+        if (c->pb[i].base[k] != PADFILL) {
+            return (size_t)-1;
+        }
+    }
+    return 0;
+}
+static void pfree(ctx *c, void *user) {
+    if (!user) {
+        return;
+    }
+    int i = pfind(c, user);
+    vf_exact_free(c->pb[i].base);
+    c->pb[i] = c->pb[--c->npb];
+}
+static void pfree_all(ctx *c) {
+    while (c->npb) {
+        c->npb--;
+        vf_exact_free(c->pb[c->npb].base);
+    }
+}
+
+/* class counters from where the buffer really lies (every allocation starts
+ * 16-byte aligned, so this is the generated pad mod 16) */
+static void note_align(ctx *c, const char *what, const void *p) {
+    char b[64];
+    unsigned m = (unsigned)((uintptr_t)p & 15);
+    if (what[0] == 'i') {
+        snprintf(b, sizeof(b), "align.in.%u", m);
+    } else {
+        snprintf(b, sizeof(b), "align.%s.%umod16", what, m);
+    }
+    vf_class(b);
+    snprintf(b, sizeof(b), "%s.%s.%s", kname[c->codec], what,
+             m ? "off16" : "on16");
+    vf_class(b);
+}
+
+/* exact-size copy of what the encoder reported writing, `pad` bytes into its
+ * allocation */
+static uint8_t *enc_copy_at(ctx *c, const uint8_t *dst, size_t written,
+                            unsigned pad) {
+    uint8_t *p = (uint8_t *)palloc(c, written, pad);
     if (written) {
         memcpy(p, dst, written);
     }
+    note_align(c, "in", p);
     return p;
+}
+static uint8_t *enc_copy(ctx *c, const uint8_t *dst, size_t written) {
+    return enc_copy_at(c, dst, written, c->in_off);
 }
 
-/* exact-size output buffer of n 64-bit elements, pre-filled */
-static uint64_t *out64(size_t n) {
-    uint64_t *p = (uint64_t *)vf_exact_alloc(n * sizeof(uint64_t));
+/* encoder destination of cap bytes at the generated byte offset (plain
+ * allocation with slack: encoder bounds are property C03); free(*raw) */
+static uint8_t *dst_alloc(ctx *c, size_t cap, uint8_t **raw) {
+    *raw = (uint8_t *)xmalloc(cap + 16);
+    note_align(c, "dst", *raw + c->dst_off);
+    return *raw + c->dst_off;
+}
+
+static unsigned next_out_off(ctx *c) {
+    unsigned o = (c->outw >> (2 * (c->outk & 7))) & 3;
+    c->outk++;
+    return o;
+}
+/* exact-size output buffer of n 64-bit elements at the next generated element
+ * offset, pre-filled */
+static uint64_t *out64(ctx *c, size_t n) {
+    uint64_t *p = (uint64_t *)palloc(c, n * sizeof(uint64_t),
+                                     next_out_off(c) * sizeof(uint64_t));
     memset(p, 0xA5, n * sizeof(uint64_t));
+    note_align(c, "out", p);
     return p;
 }
-static uint32_t *out32(size_t n) {
-    uint32_t *p = (uint32_t *)vf_exact_alloc(n * sizeof(uint32_t));
+static uint32_t *out32(ctx *c, size_t n) {
+    uint32_t *p = (uint32_t *)palloc(c, n * sizeof(uint32_t),
+                                     next_out_off(c) * sizeof(uint32_t));
     memset(p, 0xA5, n * sizeof(uint32_t));
+    note_align(c, "out", p);
     return p;
+}
+/* the encoder's source: an exact-size copy of the input at the generated
+ * element offset (the input itself stays the oracle) */
+static const uint64_t *src64(ctx *c, const uint64_t *v, size_t n) {
+    uint64_t *p = (uint64_t *)palloc(c, n * sizeof(uint64_t),
+                                     c->src_off * sizeof(uint64_t));
+    memcpy(p, v, n * sizeof(uint64_t));
+    note_align(c, "src", p);
+    return p;
+}
+static uint32_t *src32(ctx *c, size_t n) {
+    uint32_t *p = (uint32_t *)palloc(c, n * sizeof(uint32_t),
+                                     c->src_off * sizeof(uint32_t));
+    note_align(c, "src", p);
+    return p;
+}
+/* 1 if any of the n elements at p is not the 0xA5 fill */
+static int touched64(const uint64_t *p, size_t n) {
+    for (size_t i = 0; i < n; i++) {
+        if (p[i] != 0xA5A5A5A5A5A5A5A5ULL) {
+            return 1;
+        }
+    }
+    return 0;
+}
+static int touched32(const uint32_t *p, size_t n) {
+    for (size_t i = 0; i < n; i++) {
+        if (p[i] != 0xA5A5A5A5UL) {
+            return 1;
+        }
+    }
+    return 0;
 }
 
 /* element-wise comparison of a decoder output with the input; 1 = mismatch */
@@ -169,8 +367,10 @@ static void take(ctx *c, unsigned flags, size_t cap) {
     }
     if (!c->fixed) {
         vf_take_array(c->r, &c->a, maxlen, flags);
+        placement(c);
         return;
     }
+    placement(c);
     vf_arr *a = &c->a;
     memset(a, 0, sizeof(*a));
     size_t n = c->fixedn;
@@ -267,7 +467,7 @@ static void codec_classes(ctx *c) {
 static void do_delta(ctx *c) {
     int sgn = c->variant & 1;
     int edge = sgn && ((c->variant >> 1) & 3) == 3 && !c->fixed;
-    uint8_t *dst = NULL, *enc = NULL;
+    uint8_t *dst = NULL, *dstraw = NULL, *enc = NULL;
     uint64_t *out = NULL;
     snprintf(c->vname, sizeof(c->vname), "%s",
              edge ? "signed.edge" : sgn ? "signed" : "unsigned");
@@ -288,6 +488,7 @@ static void do_delta(ctx *c) {
                  top ? "MAX" : "MIN",
                  (unsigned long long)(top ? (uint64_t)INT64_MAX - a->v[0]
                                           : a->v[0] - (uint64_t)INT64_MIN));
+        placement(c);
     } else {
         take(c, sgn ? VF_ARR_SDELTA : 0, 0);
         if (sgn) {
@@ -303,12 +504,13 @@ static void do_delta(ctx *c) {
     const size_t n = c->a.n;
     const uint64_t *v = c->a.v;
     codec_classes(c);
-    dst = (uint8_t *)xmalloc(varintDeltaMaxEncodedSize(n) + 64);
-    out = out64(n);
+    const uint64_t *src = src64(c, v, n);
+    dst = dst_alloc(c, varintDeltaMaxEncodedSize(n) + 64, &dstraw);
+    out = out64(c, n);
     size_t written;
     if (sgn) {
-        written = varintDeltaEncode(dst, (const int64_t *)v, n);
-        enc = enc_copy(dst, written);
+        written = varintDeltaEncode(dst, (const int64_t *)src, n);
+        enc = enc_copy(c, dst, written);
         varintDeltaDecode(enc, n, (int64_t *)out);
         vf_class("rd.delta.decode");
         if (cmp64(c, "delta.signed.decode", "varintDeltaDecode", out, v, n,
@@ -317,8 +519,8 @@ static void do_delta(ctx *c) {
         }
         CHECK_CANARY("delta.signed.decode", out, n);
     } else {
-        written = varintDeltaEncodeUnsigned(dst, v, n);
-        enc = enc_copy(dst, written);
+        written = varintDeltaEncodeUnsigned(dst, src, n);
+        enc = enc_copy(c, dst, written);
         varintDeltaDecodeUnsigned(enc, n, out);
         vf_class("rd.delta.decodeUnsigned");
         if (cmp64(c, "delta.unsigned.decode", "varintDeltaDecodeUnsigned", out,
@@ -328,9 +530,7 @@ static void do_delta(ctx *c) {
         CHECK_CANARY("delta.unsigned.decode", out, n);
     }
 done:
-    free(dst);
-    vf_exact_free(enc);
-    vf_exact_free(out);
+    free(dstraw);
 }
 
 /* --------------------------------------------------------------------- FOR */
@@ -344,8 +544,8 @@ static void do_for(ctx *c) {
     static const char *const mmn[3] = {"meta0", "metaNULL", "metaAnalyzed"};
     snprintf(c->vname, sizeof(c->vname), "%s.%s",
              batch ? "batchEncode" : "encode", mmn[mm]);
-    uint8_t *dst = NULL, *enc = NULL;
-    uint64_t *out = NULL, *blk = NULL;
+    uint8_t *dst = NULL, *dstraw = NULL, *enc = NULL;
+    uint64_t *out = NULL, *blk = NULL, *full = NULL;
     take(c, 0, 0);
     const size_t n = c->a.n;
     const uint64_t *v = c->a.v;
@@ -363,22 +563,23 @@ static void do_for(ctx *c) {
     win[4][0] = n - 1;
     win[4][1] = 1;
     c->ra = 1;
+    const uint64_t *src = src64(c, v, n);
 
     /* worst case of the documented layout: two tagged varints, a width byte
      * and 8 bytes per offset */
-    dst = (uint8_t *)xmalloc(9 + 1 + 9 + n * 8 + 64);
+    dst = dst_alloc(c, 9 + 1 + 9 + n * 8 + 64, &dstraw);
     varintFORMeta meta;
     memset(&meta, 0, sizeof(meta));
     if (mm == 2) {
         if (batch) {
-            varintFORBatchAnalyze(v, n, &meta);
+            varintFORBatchAnalyze(src, n, &meta);
         } else {
-            varintFORAnalyze(v, n, &meta);
+            varintFORAnalyze(src, n, &meta);
         }
     }
     varintFORMeta *mp = mm == 1 ? NULL : &meta;
-    size_t written = batch ? varintFORBatchEncode(dst, v, n, mp)
-                           : varintFOREncode(dst, v, n, mp);
+    size_t written = batch ? varintFORBatchEncode(dst, src, n, mp)
+                           : varintFOREncode(dst, src, n, mp);
     if (written == 0 || written > 9 + 1 + 9 + n * 8) {
         FAIL("for.encode", "count",
              "for %s: encoder reported %zu bytes for %zu values [%s]", c->vname,
@@ -388,10 +589,10 @@ static void do_for(ctx *c) {
     if (mp) {
         CHECK_COUNT("for.encode", "meta.count after encode", meta.count, n);
     }
-    enc = enc_copy(dst, written);
+    enc = enc_copy(c, dst, written);
     CHECK_COUNT("for.getCount", "varintFORGetCount", varintFORGetCount(enc), n);
 
-    out = out64(n);
+    out = out64(c, n);
     size_t got = varintFORDecode(enc, out, n);
     vf_class("rd.for.decode");
     CHECK_COUNT("for.decode", "varintFORDecode return", got, n);
@@ -399,8 +600,13 @@ static void do_for(ctx *c) {
         goto done;
     }
     CHECK_CANARY("for.decode", out, n);
+    pfree(c, out);
 
-    memset(out, 0xA5, n * sizeof(uint64_t));
+    out = out64(c, n); /* next generated offset */
+    if (n >= 16) {
+        vf_class(((uintptr_t)out & 15) ? "for.batchDecode.n>=16.out.off16"
+                                       : "for.batchDecode.n>=16.out.on16");
+    }
     got = varintFORBatchDecode(enc, out, n);
     vf_class("rd.for.batchDecode");
     CHECK_COUNT("for.batchDecode", "varintFORBatchDecode return", got, n);
@@ -408,10 +614,17 @@ static void do_for(ctx *c) {
         goto done;
     }
     CHECK_CANARY("for.batchDecode", out, n);
+    pfree(c, out);
+    out = NULL;
 
+    /* block windows, each into its own exact-size buffer ... */
     for (int i = 0; i < 5; i++) {
         size_t s = win[i][0], z = win[i][1];
-        blk = out64(z);
+        blk = out64(c, z);
+        if (z >= 16) {
+            vf_class(((uintptr_t)blk & 15) ? "for.decodeBlock.z>=16.out.off16"
+                                           : "for.decodeBlock.z>=16.out.on16");
+        }
         got = varintFORDecodeBlock(enc, blk, s, z);
         vf_class("rd.for.decodeBlock");
         if (got != z) {
@@ -429,8 +642,84 @@ static void do_for(ctx *c) {
             goto done;
         }
         CHECK_CANARY("for.decodeBlock", blk, z);
-        vf_exact_free(blk);
+        pfree(c, blk);
         blk = NULL;
+    }
+
+    /* ... and straight into full + start of one full-size output array, as a
+     * caller that reassembles the array does: the window must hold the input
+     * and up to 32 elements on either side must stay untouched */
+    full = out64(c, n);
+    vf_class("rd.for.decodeBlock.inPlace");
+    for (int i = 0; i < 3; i++) {
+        size_t s = win[i][0], z = win[i][1];
+        if (z >= 16) {
+            vf_class(((uintptr_t)(full + s) & 15)
+                         ? "for.decodeBlock.inPlace.z>=16.out.off16"
+                         : "for.decodeBlock.inPlace.z>=16.out.on16");
+        }
+        got = varintFORDecodeBlock(enc, full + s, s, z);
+        char what[112];
+        snprintf(what, sizeof(what),
+                 "varintFORDecodeBlock(start=%zu, size=%zu) into out+start", s,
+                 z);
+        if (got != z) {
+            FAIL("for.decodeBlock.inPlace", "count",
+                 "for %s: %s returned %zu (count %zu) [%s]", c->vname, what,
+                 got, n, c->a.desc);
+            goto done;
+        }
+        if (cmp64(c, "for.decodeBlock.inPlace", what, full + s, v + s, z, s)) {
+            goto done;
+        }
+        size_t lo = s < 32 ? s : 32, hi = n - (s + z) < 32 ? n - (s + z) : 32;
+        if (touched64(full + s - lo, lo) || touched64(full + s + z, hi)) {
+            FAIL("for.decodeBlock.inPlace", "bound",
+                 "for %s: %s changed elements of the output array outside "
+                 "[start, start+size) (count %zu) [%s]",
+                 c->vname, what, n, c->a.desc);
+            goto done;
+        }
+        CHECK_CANARY("for.decodeBlock.inPlace", full, n);
+        memset(full + s, 0xA5, z * sizeof(uint64_t));
+    }
+    /* streaming: consecutive blocks of the generated size reassemble the
+     * array; what a block has not reached yet must still be untouched */
+    {
+        size_t B = c->chunk ? c->chunk : n;
+        vf_class(B >= n    ? "for.stream.oneBlock"
+                 : (B & 1) ? "for.stream.oddBlocks"
+                           : "for.stream.evenBlocks");
+        int mis = 0;
+        for (size_t s = 0; s < n; s += B) {
+            size_t z = n - s < B ? n - s : B;
+            if (z >= 16 && ((uintptr_t)(full + s) & 15)) {
+                mis = 1;
+            }
+            got = varintFORDecodeBlock(enc, full + s, s, z);
+            size_t hi = n - (s + z) < 32 ? n - (s + z) : 32;
+            if (got != z || touched64(full + s + z, hi)) {
+                FAIL("for.stream", got != z ? "count" : "bound",
+                     "for %s: streaming in blocks of %zu: "
+                     "varintFORDecodeBlock(start=%zu, size=%zu) into out+start "
+                     "returned %zu%s (count %zu) [%s]",
+                     c->vname, B, s, z, got,
+                     got == z ? " and wrote past the block" : "", n,
+                     c->a.desc);
+                goto done;
+            }
+        }
+        if (mis) {
+            vf_class("for.stream.z>=16.out.off16");
+        }
+        if (memcmp(full, v, n * sizeof(uint64_t)) != 0) {
+            char what[96];
+            snprintf(what, sizeof(what),
+                     "varintFORDecodeBlock streaming in blocks of %zu", B);
+            cmp64(c, "for.stream", what, full, v, n, 0);
+            goto done;
+        }
+        CHECK_CANARY("for.stream", full, n);
     }
 
     vf_class("rd.for.getAt");
@@ -447,10 +736,7 @@ static void do_for(ctx *c) {
         }
     }
 done:
-    free(dst);
-    vf_exact_free(enc);
-    vf_exact_free(out);
-    vf_exact_free(blk);
+    free(dstraw);
 }
 
 /* -------------------------------------------------------------------- PFOR */
@@ -497,7 +783,7 @@ static void do_pfor(ctx *c) {
     unsigned thr = thrs[c->variant % 3];
     int plant = ((c->variant / 3) & 3) == 3 && !c->fixed;
     snprintf(c->vname, sizeof(c->vname), "t%u", thr);
-    uint8_t *dst = NULL, *enc = NULL;
+    uint8_t *dst = NULL, *dstraw = NULL, *enc = NULL;
     uint64_t *out = NULL, *sorted = NULL;
     take(c, 0, 0);
     const size_t n = c->a.n;
@@ -561,19 +847,20 @@ static void do_pfor(ctx *c) {
     /* destination: the codec's own size function (priced from its own
      * analysis) plus slack for the index bytes it under-prices, and never less
      * than the documented layout needs for this input */
+    const uint64_t *src = src64(c, v, n);
     varintPFORMeta am;
     memset(&am, 0, sizeof(am));
-    varintPFORComputeThreshold(v, (uint32_t)n, thr, &am);
+    varintPFORComputeThreshold(src, (uint32_t)n, thr, &am);
     size_t cap = varintPFORSize(&am) + 4 * (size_t)am.exceptionCount;
     size_t model = 9 + 1 + 9 + n * pm.w + 9 + (pm.nexc + pm.neq) * 14;
     if (cap < model) {
         cap = model;
     }
-    dst = (uint8_t *)xmalloc(cap + 64);
+    dst = dst_alloc(c, cap + 64, &dstraw);
 
     varintPFORMeta em;
     memset(&em, 0, sizeof(em));
-    size_t written = varintPFOREncode(dst, v, (uint32_t)n, thr, &em);
+    size_t written = varintPFOREncode(dst, src, (uint32_t)n, thr, &em);
     if (written == 0 || written > cap + 64) {
         FAIL("pfor.encode", "count",
              "pfor t%u: encoder reported %zu bytes for %zu values [%s]", thr,
@@ -581,10 +868,11 @@ static void do_pfor(ctx *c) {
         goto done;
     }
     CHECK_COUNT("pfor.encode", "meta.count after encode", em.count, n);
-    enc = enc_copy(dst, written);
-    out = out64(n);
+    enc = enc_copy(c, dst, written);
+    out = out64(c, n);
 
-    /* reader 1: fresh zeroed meta (reads the header itself) */
+    /* reader 1: fresh zeroed meta (reads the header itself); every reader
+     * gets a new output buffer at the next generated offset */
     {
         varintPFORMeta dm;
         memset(&dm, 0, sizeof(dm));
@@ -606,7 +894,8 @@ static void do_pfor(ctx *c) {
     CHECK_COUNT("pfor.readMeta", "varintPFORReadMeta count", rm.count, n);
     {
         varintPFORMeta dm = rm;
-        memset(out, 0xA5, n * sizeof(uint64_t));
+        pfree(c, out);
+        out = out64(c, n);
         size_t got = varintPFORDecode(enc, out, &dm);
         vf_class("rd.pfor.decode.readMeta");
         CHECK_COUNT("pfor.decodeReadMeta",
@@ -620,7 +909,8 @@ static void do_pfor(ctx *c) {
     /* reader 3: the encoder's meta, as the repository's tests do */
     {
         varintPFORMeta dm = em;
-        memset(out, 0xA5, n * sizeof(uint64_t));
+        pfree(c, out);
+        out = out64(c, n);
         size_t got = varintPFORDecode(enc, out, &dm);
         vf_class("rd.pfor.decode.encodeMeta");
         CHECK_COUNT("pfor.decodeEncodeMeta",
@@ -655,16 +945,14 @@ static void do_pfor(ctx *c) {
         }
     }
 done:
-    free(dst);
+    free(dstraw);
     free(sorted);
-    vf_exact_free(enc);
-    vf_exact_free(out);
 }
 
 /* ------------------------------------------------------------------- group */
 static void do_group(ctx *c) {
     snprintf(c->vname, sizeof(c->vname), "encode");
-    uint8_t *dst = NULL, *enc = NULL;
+    uint8_t *dst = NULL, *dstraw = NULL, *enc = NULL;
     uint64_t *out = NULL;
     take(c, 0, VARINT_GROUP_MAX_FIELDS);
     const size_t n = c->a.n;
@@ -681,16 +969,17 @@ static void do_group(ctx *c) {
         vf_class(b);
     }
     c->ra = 1;
-    dst = (uint8_t *)xmalloc(varintGroupSize(v, (uint8_t)n) + 64);
-    size_t written = varintGroupEncode(dst, v, (uint8_t)n);
+    const uint64_t *src = src64(c, v, n);
+    dst = dst_alloc(c, varintGroupSize(src, (uint8_t)n) + 64, &dstraw);
+    size_t written = varintGroupEncode(dst, src, (uint8_t)n);
     if (written == 0 || written > 1 + 16 + 8 * n) {
         FAIL("group.encode", "count",
              "group: encoder reported %zu bytes for %zu fields [%s]", written,
              n, c->a.desc);
         goto done;
     }
-    enc = enc_copy(dst, written);
-    out = out64(n);
+    enc = enc_copy(c, dst, written);
+    out = out64(c, n);
     uint8_t fc = 0;
     size_t used = varintGroupDecode(enc, out, &fc, n);
     vf_class("rd.group.decode");
@@ -719,9 +1008,7 @@ static void do_group(ctx *c) {
         }
     }
 done:
-    free(dst);
-    vf_exact_free(enc);
-    vf_exact_free(out);
+    free(dstraw);
 }
 
 /* -------------------------------------------------------------------- dict */
@@ -734,13 +1021,14 @@ static void do_dict(ctx *c) {
     int prefix = with && (c->variant & 2);
     snprintf(c->vname, sizeof(c->vname), "%s",
              prefix ? "withDict.prefix" : with ? "withDict" : "encode");
-    uint8_t *dst = NULL, *enc = NULL;
+    uint8_t *dst = NULL, *dstraw = NULL, *enc = NULL;
     uint64_t *out = NULL, *dec = NULL;
     varintDict *dict = NULL;
     take(c, 0, 0);
     const uint64_t *v = c->a.v;
     size_t n = c->a.n;
     codec_classes(c);
+    const uint64_t *src = src64(c, v, n);
     size_t m = n; /* number of values actually encoded */
     if (prefix) {
         m = 1 + vf_u32(c->r) % n;
@@ -749,17 +1037,18 @@ static void do_dict(ctx *c) {
     size_t written;
     if (with) {
         dict = varintDictCreate();
-        if (!dict || varintDictBuild(dict, v, n) != 0) {
+        if (!dict || varintDictBuild(dict, src, n) != 0) {
             FAIL("dict.build", "count",
                  "dict: varintDictBuild failed for %zu values [%s]", n,
                  c->a.desc);
             goto done;
         }
-        dst = (uint8_t *)xmalloc(varintDictEncodedSizeWithDict(dict, m) + 64);
-        written = varintDictEncodeWithDict(dst, dict, v, m);
+        dst = dst_alloc(c, varintDictEncodedSizeWithDict(dict, m) + 64,
+                        &dstraw);
+        written = varintDictEncodeWithDict(dst, dict, src, m);
     } else {
-        dst = (uint8_t *)xmalloc(varintDictEncodedSize(v, n) + 64);
-        written = varintDictEncode(dst, v, n);
+        dst = dst_alloc(c, varintDictEncodedSize(src, n) + 64, &dstraw);
+        written = varintDictEncode(dst, src, n);
     }
     if (written == 0) {
         FAIL("dict.encode", "count",
@@ -767,7 +1056,7 @@ static void do_dict(ctx *c) {
              c->a.desc);
         goto done;
     }
-    enc = enc_copy(dst, written);
+    enc = enc_copy(c, dst, written);
     {
         size_t oc = (size_t)-1;
         dec = varintDictDecode(enc, written, &oc);
@@ -784,7 +1073,7 @@ static void do_dict(ctx *c) {
             goto done;
         }
     }
-    out = out64(m);
+    out = out64(c, m);
     {
         size_t got = varintDictDecodeInto(enc, written, out, m);
         vf_class("rd.dict.decodeInto");
@@ -795,11 +1084,9 @@ static void do_dict(ctx *c) {
         CHECK_CANARY("dict.decodeInto", out, m);
     }
 done:
-    free(dst);
+    free(dstraw);
     free(dec);
     varintDictFree(dict);
-    vf_exact_free(enc);
-    vf_exact_free(out);
 }
 
 /* --------------------------------------------------------------------- RLE */
@@ -809,7 +1096,7 @@ static void do_rle(ctx *c) {
     int nometa = (c->variant >> 1) & 1;
     snprintf(c->vname, sizeof(c->vname), "%s%s", hdr ? "header" : "plain",
              nometa ? ".metaNULL" : "");
-    uint8_t *dst = NULL, *enc = NULL;
+    uint8_t *dst = NULL, *dstraw = NULL, *enc = NULL;
     uint64_t *out = NULL;
     take(c, 0, 0);
     const size_t n = c->a.n;
@@ -817,12 +1104,13 @@ static void do_rle(ctx *c) {
     codec_classes(c);
     pick_idx(c, n);
     c->ra = 1;
-    dst = (uint8_t *)xmalloc(varintRLEMaxSize(n) + 64);
+    const uint64_t *src = src64(c, v, n);
+    dst = dst_alloc(c, varintRLEMaxSize(n) + 64, &dstraw);
     varintRLEMeta meta;
     memset(&meta, 0, sizeof(meta));
     varintRLEMeta *mp = nometa ? NULL : &meta;
-    size_t written = hdr ? varintRLEEncodeWithHeader(dst, v, n, mp)
-                         : varintRLEEncode(dst, v, n, mp);
+    size_t written = hdr ? varintRLEEncodeWithHeader(dst, src, n, mp)
+                         : varintRLEEncode(dst, src, n, mp);
     if (written == 0 || written > varintRLEMaxSize(n) + 64) {
         FAIL("rle.encode", "count",
              "rle %s: encoder reported %zu bytes for %zu values [%s]", c->vname,
@@ -832,8 +1120,8 @@ static void do_rle(ctx *c) {
     if (mp) {
         CHECK_COUNT("rle.encode", "meta.count after encode", meta.count, n);
     }
-    enc = enc_copy(dst, written);
-    out = out64(n);
+    enc = enc_copy(c, dst, written);
+    out = out64(c, n);
     const uint8_t *runs = enc;
     if (hdr) {
         CHECK_COUNT("rle.getCount", "varintRLEGetCount", varintRLEGetCount(enc),
@@ -905,9 +1193,7 @@ static void do_rle(ctx *c) {
         }
     }
 done:
-    free(dst);
-    vf_exact_free(enc);
-    vf_exact_free(out);
+    free(dstraw);
 }
 
 /* ------------------------------------------------------------------- Elias */
@@ -915,7 +1201,7 @@ done:
 static void do_elias(ctx *c) {
     int delta = c->variant & 1;
     snprintf(c->vname, sizeof(c->vname), "%s", delta ? "delta" : "gamma");
-    uint8_t *dst = NULL, *enc = NULL;
+    uint8_t *dst = NULL, *dstraw = NULL, *enc = NULL;
     uint64_t *out = NULL;
     take(c, VF_ARR_GE1, 0);
     const size_t n = c->a.n;
@@ -923,11 +1209,12 @@ static void do_elias(ctx *c) {
     codec_classes(c);
     /* the array encoders clear MaxBytes(count) bytes of the destination */
     size_t cap = delta ? varintEliasDeltaMaxBytes(n) : varintEliasGammaMaxBytes(n);
-    dst = (uint8_t *)xmalloc(cap + 64);
+    const uint64_t *src = src64(c, v, n);
+    dst = dst_alloc(c, cap + 64, &dstraw);
     varintEliasMeta meta;
     memset(&meta, 0, sizeof(meta));
-    size_t written = delta ? varintEliasDeltaEncodeArray(dst, v, n, &meta)
-                           : varintEliasGammaEncodeArray(dst, v, n, &meta);
+    size_t written = delta ? varintEliasDeltaEncodeArray(dst, src, n, &meta)
+                           : varintEliasGammaEncodeArray(dst, src, n, &meta);
     if (written == 0 || written > cap || meta.totalBits > written * 8 ||
         meta.totalBits + 7 < written * 8) {
         FAIL("elias.encode", "count",
@@ -937,8 +1224,8 @@ static void do_elias(ctx *c) {
         goto done;
     }
     CHECK_COUNT("elias.encode", "meta.count after encode", meta.count, n);
-    enc = enc_copy(dst, written);
-    out = out64(n);
+    enc = enc_copy(c, dst, written);
+    out = out64(c, n);
     size_t got = delta
                      ? varintEliasDeltaDecodeArray(enc, meta.totalBits, out, n)
                      : varintEliasGammaDecodeArray(enc, meta.totalBits, out, n);
@@ -952,9 +1239,7 @@ static void do_elias(ctx *c) {
     }
     CHECK_CANARY(site, out, n);
 done:
-    free(dst);
-    vf_exact_free(enc);
-    vf_exact_free(out);
+    free(dstraw);
 }
 
 /* ------------------------------------------------------------------- BP128 */
@@ -987,13 +1272,13 @@ static void do_bp128(ctx *c) {
                                       "block32",       "deltaBlock32"};
     snprintf(c->vname, sizeof(c->vname), "%s%s", mn[mode],
              nometa && mode < 4 ? ".metaNULL" : "");
-    uint8_t *dst = NULL, *enc = NULL;
+    uint8_t *dst = NULL, *dstraw = NULL, *enc = NULL;
     uint64_t *o64 = NULL;
     uint32_t *in32 = NULL, *o32 = NULL;
     int is32 = mode == 0 || mode == 2 || mode >= 4;
     int sorted = mode == 2 || mode == 3 || mode == 5;
     unsigned flags = (is32 ? VF_ARR_U32 : 0) | (sorted ? VF_ARR_SORTED : 0);
-    take(c, flags, mode >= 4 ? VARINT_BP128_BLOCK_SIZE : 0);
+    take(c, flags, mode >= 4 ? BP_MAXBLK * VARINT_BP128_BLOCK_SIZE : 0);
     const size_t n = c->a.n;
     const uint64_t *v = c->a.v;
     codec_classes(c);
@@ -1002,15 +1287,19 @@ static void do_bp128(ctx *c) {
     varintBP128Meta *mp = nometa ? NULL : &meta;
 
     if (mode >= 4) {
-        /* one block of exactly 128 values (the array repeated cyclically) */
+        /* 1..4 blocks of exactly 128 values (the array repeated cyclically
+         * fills the last one), written one after the other as a caller of
+         * the block functions does */
         const size_t B = VARINT_BP128_BLOCK_SIZE;
-        in32 = (uint32_t *)vf_exact_alloc(B * sizeof(uint32_t));
-        for (size_t i = 0; i < B; i++) {
+        const size_t nb = (n + B - 1) / B;
+        const size_t T = nb * B;
+        in32 = src32(c, T);
+        for (size_t i = 0; i < T; i++) {
             in32[i] = (uint32_t)v[i % n];
         }
         uint32_t prev = 0;
         if (mode == 5) {
-            qsort(in32, B, sizeof(uint32_t), cmp_u32q);
+            qsort(in32, T, sizeof(uint32_t), cmp_u32q);
             uint8_t pb = vf_u8(c->r);
             uint32_t back = vf_u16(c->r);
             switch (pb % 3) {
@@ -1030,7 +1319,7 @@ static void do_bp128(ctx *c) {
         int w32 = 0;
         {
             uint32_t p = prev;
-            for (size_t i = 0; i < B; i++) {
+            for (size_t i = 0; i < T; i++) {
                 uint32_t x = mode == 5 ? in32[i] - p : in32[i];
                 p = in32[i];
                 if (x >> 31) {
@@ -1038,43 +1327,104 @@ static void do_bp128(ctx *c) {
                 }
             }
         }
-        bp_classes(c, B, 0, w32);
-        dst = (uint8_t *)xmalloc(1 + B * 4 + 64);
-        size_t written = mode == 4
-                             ? varintBP128EncodeBlock32(dst, in32)
-                             : varintBP128DeltaEncodeBlock32(dst, in32, prev);
-        if (written == 0 || written > 1 + B * 4) {
-            FAIL("bp128.block.encode", "count",
-                 "bp128 %s: block encoder reported %zu bytes [%s]", c->vname,
-                 written, c->a.desc);
-            goto done;
+        bp_classes(c, T, 0, w32);
+        {
+            char b[32];
+            snprintf(b, sizeof(b), "bp128.block.blocks=%zu", nb);
+            vf_class(b);
         }
-        enc = enc_copy(dst, written);
-        o32 = out32(B);
-        size_t used = mode == 4
-                          ? varintBP128DecodeBlock32(enc, o32)
-                          : varintBP128DeltaDecodeBlock32(enc, o32, prev);
-        vf_class(mode == 4 ? "rd.bp128.decodeBlock32"
-                           : "rd.bp128.deltaDecodeBlock32");
+        dst = dst_alloc(c, nb * (1 + B * 4) + 64, &dstraw);
+        size_t pos[BP_MAXBLK + 1];
+        pos[0] = 0;
+        for (size_t k = 0; k < nb; k++) {
+            uint32_t pk = k ? in32[k * B - 1] : prev;
+            size_t w = mode == 4 ? varintBP128EncodeBlock32(dst + pos[k],
+                                                            in32 + k * B)
+                                 : varintBP128DeltaEncodeBlock32(
+                                       dst + pos[k], in32 + k * B, pk);
+            if (w == 0 || w > 1 + B * 4) {
+                FAIL("bp128.block.encode", "count",
+                     "bp128 %s: block encoder reported %zu bytes for block "
+                     "%zu [%s]",
+                     c->vname, w, k, c->a.desc);
+                goto done;
+            }
+            pos[k + 1] = pos[k] + w;
+        }
         const char *site =
             mode == 4 ? "bp128.block.decode" : "bp128.deltaBlock.decode";
-        if (used == 0) {
-            FAIL(site, "count", "bp128 %s: block decoder consumed 0 bytes [%s]",
-                 c->vname, c->a.desc);
-            goto done;
+        const char *fn = mode == 4 ? "varintBP128DecodeBlock32"
+                                   : "varintBP128DeltaDecodeBlock32";
+        vf_class(mode == 4 ? "rd.bp128.decodeBlock32"
+                           : "rd.bp128.deltaDecodeBlock32");
+        /* every block from an exact-size copy of its own bytes (the decoder
+         * needs only what the encoder reported for that block) into an
+         * exact-size output */
+        for (size_t k = 0; k < nb; k++) {
+            uint32_t pk = k ? in32[k * B - 1] : prev;
+            enc = enc_copy_at(c, dst + pos[k], pos[k + 1] - pos[k],
+                              (c->in_off + 5 * (unsigned)k) & 15);
+            o32 = out32(c, B);
+            size_t used = mode == 4
+                              ? varintBP128DecodeBlock32(enc, o32)
+                              : varintBP128DeltaDecodeBlock32(enc, o32, pk);
+            if (used == 0) {
+                FAIL(site, "count",
+                     "bp128 %s: block decoder consumed 0 bytes (block %zu) "
+                     "[%s]",
+                     c->vname, k, c->a.desc);
+                goto done;
+            }
+            char what[64];
+            snprintf(what, sizeof(what), "%s (block %zu)", fn, k);
+            if (cmp32(c, site, what, o32, in32 + k * B, B)) {
+                goto done;
+            }
+            CHECK_CANARY(site, o32, B);
+            pfree(c, o32);
+            pfree(c, enc);
+            o32 = NULL;
+            enc = NULL;
         }
-        if (cmp32(c, site, mode == 4 ? "varintBP128DecodeBlock32"
-                                     : "varintBP128DeltaDecodeBlock32",
-                  o32, in32, B)) {
-            goto done;
+        /* streaming: the blocks as they lie one after the other in one exact
+         * copy, each decoded straight into full + 128 * k; blocks not yet
+         * reached must be untouched */
+        site = mode == 4 ? "bp128.block.stream" : "bp128.deltaBlock.stream";
+        vf_class("rd.bp128.block.inPlace");
+        enc = enc_copy(c, dst, pos[nb]);
+        o32 = out32(c, T);
+        for (size_t k = 0; k < nb; k++) {
+            uint32_t pk = k ? in32[k * B - 1] : prev;
+            size_t used =
+                mode == 4
+                    ? varintBP128DecodeBlock32(enc + pos[k], o32 + k * B)
+                    : varintBP128DeltaDecodeBlock32(enc + pos[k], o32 + k * B,
+                                                    pk);
+            if (used == 0 || touched32(o32 + (k + 1) * B, T - (k + 1) * B)) {
+                FAIL(site, used == 0 ? "count" : "bound",
+                     "bp128 %s: %s of block %zu of %zu at byte %zu into "
+                     "out + %zu %s [%s]",
+                     c->vname, fn, k, nb, pos[k], k * B,
+                     used == 0 ? "consumed 0 bytes"
+                               : "wrote past its 128 elements",
+                     c->a.desc);
+                goto done;
+            }
         }
-        CHECK_CANARY(site, o32, B);
+        {
+            char what[64];
+            snprintf(what, sizeof(what), "%s streaming %zu blocks", fn, nb);
+            if (cmp32(c, site, what, o32, in32, T)) {
+                goto done;
+            }
+        }
+        CHECK_CANARY(site, o32, T);
         goto done;
     }
 
-    dst = (uint8_t *)xmalloc(varintBP128MaxBytes(n) + 64);
+    dst = dst_alloc(c, varintBP128MaxBytes(n) + 64, &dstraw);
     if (is32) {
-        in32 = (uint32_t *)vf_exact_alloc(n * sizeof(uint32_t));
+        in32 = src32(c, n);
         int w32 = 0;
         uint32_t p = 0;
         for (size_t i = 0; i < n; i++) {
@@ -1098,8 +1448,8 @@ static void do_bp128(ctx *c) {
             CHECK_COUNT("bp128.encode", "meta.count after encode", meta.count,
                         n);
         }
-        enc = enc_copy(dst, written);
-        o32 = out32(n);
+        enc = enc_copy(c, dst, written);
+        o32 = out32(c, n);
         size_t got = mode == 0 ? varintBP128Decode32(enc, o32, n)
                                : varintBP128DeltaDecode32(enc, o32, n);
         vf_class(mode == 0 ? "rd.bp128.decode32" : "rd.bp128.deltaDecode32");
@@ -1120,8 +1470,9 @@ static void do_bp128(ctx *c) {
             }
         }
         bp_classes(c, mode == 1 ? n : n - 1, w64, 0);
-        size_t written = mode == 1 ? varintBP128Encode64(dst, v, n, mp)
-                                   : varintBP128DeltaEncode64(dst, v, n, mp);
+        const uint64_t *src = src64(c, v, n);
+        size_t written = mode == 1 ? varintBP128Encode64(dst, src, n, mp)
+                                   : varintBP128DeltaEncode64(dst, src, n, mp);
         if (written == 0 || written > varintBP128MaxBytes(n) + 64) {
             FAIL("bp128.encode", "count",
                  "bp128 %s: encoder reported %zu bytes for %zu values [%s]",
@@ -1132,13 +1483,13 @@ static void do_bp128(ctx *c) {
             CHECK_COUNT("bp128.encode", "meta.count after encode", meta.count,
                         n);
         }
-        enc = enc_copy(dst, written);
+        enc = enc_copy(c, dst, written);
         if (mode == 1) {
             /* only the 64-bit raw format has a count header */
             CHECK_COUNT("bp128.getCount", "varintBP128GetCount",
                         varintBP128GetCount(enc, written), n);
         }
-        o64 = out64(n);
+        o64 = out64(c, n);
         size_t got = mode == 1 ? varintBP128Decode64(enc, o64, n)
                                : varintBP128DeltaDecode64(enc, o64, n);
         vf_class(mode == 1 ? "rd.bp128.decode64" : "rd.bp128.deltaDecode64");
@@ -1152,11 +1503,7 @@ static void do_bp128(ctx *c) {
         CHECK_CANARY(site, o64, n);
     }
 done:
-    free(dst);
-    vf_exact_free(enc);
-    vf_exact_free(o64);
-    vf_exact_free(o32);
-    vf_exact_free(in32);
+    free(dstraw);
 }
 
 /* ------------------------------------------------------------------ driver */
@@ -1165,6 +1512,7 @@ static void run_one(ctx *c) {
     c->extra_nt = 0;
     c->salt = 0;
     c->nidx = 0;
+    c->npb = 0;
     c->vname[0] = 0;
     memset(&c->a, 0, sizeof(c->a));
     switch (c->codec) {
@@ -1193,6 +1541,7 @@ static void run_one(ctx *c) {
         do_bp128(c);
         break;
     }
+    pfree_all(c);
     if (c->a.v) {
         /* non-trivial: count >= 2 and (max element needs >= 2 bytes, or count
          * within +-1 of a table length, or a random-access / block reader ran,
@@ -1222,6 +1571,8 @@ void vf_run(vf_rd *r, vf_report *rep) {
     vf_desc(rep, "codec=%s variant=%u ", kname[c.codec], c.variant);
     run_one(&c);
     vf_desc(rep, "(%s) %s", c.vname, c.a.desc);
+    vf_desc(rep, " place[in+%u src+%u dst+%u out=%04x chunk=%u]", c.in_off,
+            c.src_off, c.dst_off, c.outw, c.chunk);
     if (c.nidx && c.a.n > 48) {
         vf_desc(rep, " idx=[..,%zu,%zu,%zu,%zu]", c.idx[c.nidx - 4],
                 c.idx[c.nidx - 3], c.idx[c.nidx - 2], c.idx[c.nidx - 1]);
@@ -1282,6 +1633,8 @@ void vf_sweep(vf_report *rep) {
                     c.fixed = buf;
                     c.fixedn = n;
                     c.fixedname = pname[pat];
+                    /* placement varies with the evaluation counter */
+                    c.fixedplace = vf_mix(0x5eed, evals) & 0xfffffffffULL;
                     run_one(&c);
                     evals++;
                 }
